@@ -131,74 +131,7 @@ def run(chk, repo):
     from sa.peval import PEval, repo_consts, show as _show, Unk
     from sa.affine import simple_aff as _saff
 
-    def one_item(fn, position: bool):
-        """value stored / emitted for one attribute when `key in constant.ATTRS_POSITION` is `position` (and the value is no list)"""
-        outs = []
-        for assume_list in (False,):
-            pe = PEval(resolve_const=repo_consts(repo, fn.module), assume={})
-
-            class PE2(PEval):
-                def decide(self2, v, st):
-                    t = _show(v)
-                    if 'ATTRS_POSITION' in t and ' in ' in t:
-                        neg = ' not in ' in t
-                        return position != neg
-                    if t.startswith('isinstance('):
-                        return False
-                    return PEval.decide(self2, v, st)
-            pe = PE2(resolve_const=None)
-            for o in pe.run(fn.node, {}):
-                outs.append(o)
-        return outs
-
-    from sa.peval import Tmpl as _Tmpl
-
-    def writer_item(position):
-        """(key text, value text) of the `KEY=value` pieces of the string VariantRecord.info returns (one generic attribute)"""
-        vals = set()
-        for o in one_item(inf, position):
-            if o.kind != 'return' or '<loop not entered>' in o.assumed:
-                continue
-            if not isinstance(o.value, _Tmpl):
-                return None
-            for piece in o.value.split(';'):
-                if not piece.parts:
-                    continue
-                kv = piece.split('=')
-                if len(kv) != 2 or kv[0].single() is None or kv[1].single() is None:
-                    return None
-                vals.add((_show(kv[0].single()), _show(kv[1].single())))
-        return vals
-
-    def reader_item(position):
-        vals = set()
-        for o in one_item(pa, position):
-            for ef in o.effects:
-                if ef[0] == 'item':
-                    vals.add((_show(ef[2]), _show(ef[3])))
-        return vals
-    wp, wn = writer_item(True), writer_item(False)
-    # KEY=value pieces: the value written for a position attribute is str(int(v) + 1) where v is what is written otherwise
-    if wp is None or wn is None:
-        chk.undecided('C13.b', 'INFO writer', inf.where, 'VariantRecord.info does not evaluate to a `;`-separated template of KEY=value pieces')
-        wp, wn = set(), set()
-    okw = len(wp) == 1 and len(wn) == 1
-    wkey = None
-    if okw:
-        (k1, v1), (k0, v0) = next(iter(wp)), next(iter(wn))
-        wkey = k1
-        okw = k1 is not None and k1 == k0 and v0 is not None and re.sub(r'\s', '', v1) == re.sub(r'\s', '', f"str(int({v0}) + 1)")
-    chk.ob('C13.b', 'writer shifts exactly constant.ATTRS_POSITION by +1', inf.where, okw,
-           f"VariantRecord.info no longer shifts the position attributes of constant.ATTRS_POSITION by +1 (position attribute written as {sorted(wp)}, others as {sorted(wn)})",
-           key=inf.qual + '::shift', fn=inf.qual)
-    rp, rn = reader_item(True), reader_item(False)
-    okr = len(rp) == 1 and len(rn) == 1
-    if okr:
-        (kk1, rv1), (kk0, rv0) = next(iter(rp)), next(iter(rn))
-        okr = kk1 == kk0 and re.sub(r'\s', '', rv1) == re.sub(r'\s', '', f"str(int({rv0}) - 1)")
-    chk.ob('C13.b', 'reader shifts exactly constant.ATTRS_POSITION by -1', pa.where, okr,
-           f"parse_attrs no longer shifts the position attributes of constant.ATTRS_POSITION by -1 (position attribute stored as {sorted(rp)}, others as {sorted(rn)})",
-           key=pa.qual + '::shift', fn=pa.qual)
+    wkey = info_shift_rules(chk, repo, 'C13.b')
 
     def writer_columns(T):
         pe = PEval(resolve_const=repo_consts(repo, ts.module), record=('join',))
@@ -604,3 +537,82 @@ def byte_offsets(chk, repo, rid, qual):
     chk.ob(rid, f"{ip.name}: offsets advance by len() of the raw bytes line, for every line, before any re-binding / skip", repo.loc(ip, lp), ok,
            detail + ' - pointers are byte offsets used with seek()/read() on the file opened in binary mode, so every pointer behind a multi-byte '
            'character (or a skipped line) is shifted and loads the wrong byte range', key=qual + '::raw-byte-offsets', fn=ip.qual)
+
+
+def info_shift_rules(chk, repo, rid):
+    """INFO column of a variant record: the writer emits `KEY=value` pieces, position attributes shifted +1 (and only those); the
+    reader shifts exactly those back by -1.  Returns the key text the writer emits (for the upper-case obligation)."""
+    from sa.peval import PEval, repo_consts, show as _show, Unk
+    inf = repo.func('seqvar.VariantRecord:VariantRecord.info')
+    pa = repo.func('seqvar.io:parse_attrs')
+    chk.uses(inf, pa)
+    def one_item(fn, position: bool):
+        """value stored / emitted for one attribute when `key in constant.ATTRS_POSITION` is `position` (and the value is no list)"""
+        outs = []
+        for assume_list in (False,):
+            pe = PEval(resolve_const=repo_consts(repo, fn.module), assume={})
+
+            class PE2(PEval):
+                def decide(self2, v, st):
+                    t = _show(v)
+                    if 'ATTRS_POSITION' in t and ' in ' in t:
+                        neg = ' not in ' in t
+                        return position != neg
+                    if t.startswith('isinstance('):
+                        return False
+                    return PEval.decide(self2, v, st)
+            pe = PE2(resolve_const=None)
+            for o in pe.run(fn.node, {}):
+                outs.append(o)
+        return outs
+
+    from sa.peval import Tmpl as _Tmpl
+
+    def writer_item(position):
+        """(key text, value text) of the `KEY=value` pieces of the string VariantRecord.info returns (one generic attribute)"""
+        vals = set()
+        for o in one_item(inf, position):
+            if o.kind != 'return' or '<loop not entered>' in o.assumed:
+                continue
+            if not isinstance(o.value, _Tmpl):
+                return None
+            for piece in o.value.split(';'):
+                if not piece.parts:
+                    continue
+                kv = piece.split('=')
+                if len(kv) != 2 or kv[0].single() is None or kv[1].single() is None:
+                    return None
+                vals.add((_show(kv[0].single()), _show(kv[1].single())))
+        return vals
+
+    def reader_item(position):
+        vals = set()
+        for o in one_item(pa, position):
+            for ef in o.effects:
+                if ef[0] == 'item':
+                    vals.add((_show(ef[2]), _show(ef[3])))
+        return vals
+    wp, wn = writer_item(True), writer_item(False)
+    # KEY=value pieces: the value written for a position attribute is str(int(v) + 1) where v is what is written otherwise
+    if wp is None or wn is None:
+        chk.undecided(rid, 'INFO writer', inf.where, 'VariantRecord.info does not evaluate to a `;`-separated template of KEY=value pieces')
+        wp, wn = set(), set()
+    okw = len(wp) == 1 and len(wn) == 1
+    wkey = None
+    if okw:
+        (k1, v1), (k0, v0) = next(iter(wp)), next(iter(wn))
+        wkey = k1
+        okw = k1 is not None and k1 == k0 and v0 is not None and re.sub(r'\s', '', v1) == re.sub(r'\s', '', f"str(int({v0}) + 1)")
+    chk.ob(rid, 'writer shifts exactly constant.ATTRS_POSITION by +1', inf.where, okw,
+           f"VariantRecord.info no longer shifts the position attributes of constant.ATTRS_POSITION by +1 (position attribute written as {sorted(wp)}, others as {sorted(wn)})",
+           key=inf.qual + '::shift', fn=inf.qual)
+    rp, rn = reader_item(True), reader_item(False)
+    okr = len(rp) == 1 and len(rn) == 1
+    if okr:
+        (kk1, rv1), (kk0, rv0) = next(iter(rp)), next(iter(rn))
+        okr = kk1 == kk0 and re.sub(r'\s', '', rv1) == re.sub(r'\s', '', f"str(int({rv0}) - 1)")
+    chk.ob(rid, 'reader shifts exactly constant.ATTRS_POSITION by -1', pa.where, okr,
+           f"parse_attrs no longer shifts the position attributes of constant.ATTRS_POSITION by -1 (position attribute stored as {sorted(rp)}, others as {sorted(rn)})",
+           key=pa.qual + '::shift', fn=pa.qual)
+
+    return wkey
